@@ -55,24 +55,30 @@ def showOut : Out → String
   | .recs l => "[" ++ joinWith "," (l.map showRec) ++ "]"
   | .dead => "dead"
 
-def parseOp (s : String) : Option Op :=
+/-- an op of a sequence case: a log operation, or `image` = an independent look at the file -/
+inductive DOp where
+  | op (o : Op)
+  | image
+
+def parseOp (s : String) : Option DOp :=
   match words s with
   | ["push", t, k, u, r] =>
     match t.toNat?, k.toNat?, u.toNat?, r.toNat? with
     | some t, some k, some u, some r =>
-      if t < 2^32 ∧ validKind k ∧ u ≤ 65535 ∧ r ≤ 65535 then some (.push (mkRec t k u r)) else none
+      if t < 2^32 ∧ validKind k ∧ u ≤ 65535 ∧ r ≤ 65535 then some (.op (.push (mkRec t k u r))) else none
     | _, _, _, _ => none
-  | ["force"] => some .force
-  | ["truncate"] => some .truncate
-  | ["reopen"] => some .reopen
-  | ["crash"] => some .crash
+  | ["force"] => some (.op .force)
+  | ["truncate"] => some (.op .truncate)
+  | ["reopen"] => some (.op .reopen)
+  | ["crash"] => some (.op .crash)
+  | ["image"] => some .image
   | ["read", k] =>
     match k.toNat? with
-    | some k => if k ≤ 64 then some (.read k) else none
+    | some k => if k ≤ 64 then some (.op (.read k)) else none
     | none => none
   | _ => none
 
-def parseOps : List String → Option (List Op)
+def parseOps : List String → Option (List DOp)
   | [] => some []
   | s :: rest =>
     match parseOp s, parseOps rest with
@@ -83,10 +89,24 @@ def diagOf (D : Defects) (s : State) : String :=
   if !s.alive then "dead" else
   s!"tb={s.hdr.hdr.totalBlocks} te={s.hdr.hdr.totalEntries} pend={s.queue.length} last={showOpt (lastLsn D s)}"
 
+def showBlockImage (b : Block) : String :=
+  s!"{b.num}:{b.used}:{showOpt b.first}:{showOpt b.last}:{hex32 (fnv (encodeRecs P b.recs) 2166136261)}"
+
+/-- the file block by block: number, used bytes, first/last LSN of the block header and a digest of the used part
+    of the data area (the concatenated record images); block zero also shows `total_blocks` -/
+def showImage (d : Disk) : String :=
+  match d.zero with
+  | none => "{}"
+  | some z =>
+    "{" ++ joinWith "," ((showBlockImage z.blk ++ s!":tb={z.hdr.totalBlocks}") :: d.blocks.map showBlockImage) ++ "}"
+
 /-- outputs and per-op diagnostics -/
-def runDiag (D : Defects) : State → List Op → List String × List String
+def runDiag (D : Defects) : State → List DOp → List String × List String
   | _, [] => ([], [])
-  | s, op :: ops =>
+  | s, .image :: ops =>
+    let (os, ds) := runDiag D s ops
+    ((if s.alive then showImage s.disk else "dead") :: os, diagOf D s :: ds)
+  | s, .op op :: ops =>
     let (s1, o) := step P D s op
     let (os, ds) := runDiag D s1 ops
     (showOut o :: os, diagOf D s1 :: ds)
